@@ -39,6 +39,8 @@ func main() {
 	switch os.Args[1] {
 	case "check":
 		os.Exit(cmdCheck(os.Args[2:]))
+	case "scan":
+		os.Exit(cmdScan(os.Args[2:]))
 	case "explain":
 		os.Exit(cmdExplain(os.Args[2:]))
 	case "manifest":
@@ -534,5 +536,54 @@ func cmdExplain(args []string) int {
 		}
 	}
 	fmt.Println("current status on /repo: obligation no longer exists")
+	return 0
+}
+
+// cmdScan: development aid — loads the tree once (linux/amd64) and runs every rule set on it, printing one line
+// per property: "<ID> ok" or "<ID> FIRED <rules…>". Writes no evidence; exit status 0. Used by scripts/matrix.sh.
+func cmdScan(args []string) int {
+	fs := flag.NewFlagSet("scan", flag.ExitOnError)
+	repo := fs.String("repo", "/repo", "repository working tree to analyse")
+	fs.Parse(args)
+	cfg := prog.Config{GOOS: "linux", GOARCH: "amd64"}
+	p, err := prog.Load(*repo, cfg)
+	if err != nil {
+		fmt.Printf("ALL UNANALYSABLE %v\n", err)
+		return 0
+	}
+	for _, id := range rules.All() {
+		rs := rules.Get(id)
+		func() {
+			defer func() {
+				if r := recover(); r != nil {
+					fmt.Printf("%s FIRED panic\n", id)
+				}
+			}()
+			res := core.NewResult(rs.Property, cfg.String())
+			ctx := &rules.Ctx{P: p, R: res, Tier: "quick", Depth: 3}
+			rs.Run(ctx)
+			fired := map[string]bool{}
+			for _, o := range res.Obls {
+				if o.Status != core.Discharged {
+					fired[o.Rule] = true
+				}
+			}
+			for rule, min := range rs.MinInstances {
+				if res.Counts[rule] < min {
+					fired[rule+"(vacuous)"] = true
+				}
+			}
+			if len(fired) == 0 {
+				fmt.Printf("%s ok\n", id)
+				return
+			}
+			var fl []string
+			for k := range fired {
+				fl = append(fl, k)
+			}
+			sort.Strings(fl)
+			fmt.Printf("%s FIRED %s\n", id, strings.Join(fl, " "))
+		}()
+	}
 	return 0
 }
